@@ -16,6 +16,7 @@ type tabInfo struct {
 	members   []string // member names over the whole chain (abstract roots only)
 	hasNested bool     // some list of the chain holds a nested table
 	single    bool
+	cols      []string // field / ref names over the whole chain (root tables)
 }
 type viewInfo struct {
 	pkg, name string
@@ -50,6 +51,9 @@ type gen struct {
 	sharedNames bool // entity names are numbered per package: the same name occurs in several packages
 	unqualInh   bool // INHERITS of the own package is mostly written without the package
 	descRefs    bool // descriptors hold reference fields
+	// three more shapes of the same kind (F30, F31 comes by itself, F32)
+	foreignNested bool // a table may inherit an abstract table of another package whose items hold nested tables
+	inhCols       bool // GRANT ... ON TABLE may name inherited columns
 }
 
 func (g *gen) name(pkg, prefix string) string {
@@ -255,7 +259,7 @@ func (g *gen) nestedTable(w *wsInfo, pkg, rootKind string, depth int) (*Table, [
 	} else if g.r.Chance(1, 4) {
 		for _, v := range visible(w) {
 			for _, p := range v.tables {
-				if p.abstract && p.root && p.kind == nk && (p.pkg == pkg || !p.hasNested) && t.Inh == nil {
+				if p.abstract && p.root && p.kind == nk && (p.pkg == pkg || !p.hasNested || g.foreignNested) && t.Inh == nil {
 					t.Inh = g.inhRef(pkg, named{p.pkg, p.name})
 					for _, m := range p.members {
 						used[m] = true
@@ -299,7 +303,7 @@ func (g *gen) rootTable(w *wsInfo, abstract bool) {
 	var parents []*tabInfo
 	for _, v := range visible(w) {
 		for _, p := range v.tables {
-			if p.abstract && p.root && (p.pkg == pkg || !p.hasNested) {
+			if p.abstract && p.root && (p.pkg == pkg || !p.hasNested || g.foreignNested) {
 				parents = append(parents, p)
 			}
 		}
@@ -313,6 +317,7 @@ func (g *gen) rootTable(w *wsInfo, abstract bool) {
 			used[m] = true
 		}
 		info.members = append(info.members, p.members...)
+		info.cols = append(info.cols, p.cols...)
 	} else {
 		b := kit.Pick(g.r, docBases)
 		t.Inh = &QRef{Pkg: "sys", Name: b}
@@ -326,6 +331,7 @@ func (g *gen) rootTable(w *wsInfo, abstract bool) {
 	items, nested := g.tableItems(w, pkg, info.kind, used, 0, info, g.r.Intn(g.nf()+1), &cols)
 	t.Items = items
 	w.ownCols[t.Name] = cols
+	info.cols = append(info.cols, cols...)
 	for k := range used {
 		if !before[k] {
 			info.members = append(info.members, k)
@@ -663,7 +669,11 @@ func (g *gen) grantDecl(w *wsInfo, revoke bool) *Grant {
 	var tabs []tc
 	for _, v := range visible(w) {
 		for _, t := range v.tables {
-			tabs = append(tabs, tc{named{t.pkg, t.name}, v.ownCols[t.name]})
+			cols := v.ownCols[t.name]
+			if g.inhCols && t.root {
+				cols = t.cols
+			}
+			tabs = append(tabs, tc{named{t.pkg, t.name}, cols})
 		}
 	}
 	cmds := collect(w, func(v *wsInfo) []named { return v.cmds })
@@ -875,6 +885,10 @@ func GenSchema(r *kit.Rng, big bool) Schema {
 		g.sharedNames = true
 	case 1:
 		g.unqualInh = true
+	case 2:
+		g.foreignNested = true
+	case 3:
+		g.inhCols = true
 	}
 	g.descRefs = r.Chance(1, 2)
 	names := []string{"app1", "liba", "libb"}[:npkg]
